@@ -29,7 +29,7 @@ Definition half_okP (c : entry) : Prop := 2 * (csize c + SLOT) <= LEAF_CAP.
 Definition sep_fits (s : key) : Prop := klen s + ISLOT <= PAGE - INT_START.
 Definition cell_fits (c : entry) : Prop := csize c + SLOT <= LEAF_CAP.
 
-(* what a (sub)tree insertion result must satisfy; the only error left is the zero-separator panic *)
+(* what a (sub)tree insertion result must satisfy; no error branch is reachable *)
 Definition ires_ok (h : nat) (lo hi : option key) (t : tree) (e : entry) (r : ires) : Prop :=
   match r with
   | IOk t' _ => bounded h lo hi t' /\ Permutation (abs h t') (e :: abs h t)
@@ -38,7 +38,7 @@ Definition ires_ok (h : nat) (lo hi : option key) (t : tree) (e : entry) (r : ir
       /\ Permutation (abs h L ++ abs h R) (e :: abs h t)
   | IDup _ => In (fst e) (keys (abs h t))
   | IFull _ => ~ In (fst e) (keys (abs h t)) /\ exists c, In c (e :: abs h t) /\ ~ half_okP c
-  | IErr er => er = EZeroSep
+  | IErr er => False
   end.
 
 Lemma sum_sizes (cs : list entry) :
